@@ -106,6 +106,9 @@ def make_alts(rng, pool):
         else:
             e = rng.choice(pool)
         alts.append({'expect': e, 'grade_decimal': rng.choice(CREDITS), 'msg': rng.choice(MSGS)})
+        if rng.random() < 0.12:
+            # an author's explicit ok label (possibly at odds with the credit): credit and messages are decided by the credit alone
+            alts[-1]['ok'] = rng.choice([True, False, 'partial'])
     return alts
 
 
